@@ -1129,10 +1129,34 @@ def b_stringio(I, a, k):
 
 
 def is_implementation(I, a, k):
+    """oop_ext.interface.IsImplementation(obj, Interface): does the class of obj (or a base class) declare
+    @ImplementsInterface(Interface) (or derive from it)?  Declaration-based, as in oop_ext (A10)."""
+    import ast as _ast
+
     h = I.P.ghost.get("is_implementation")
     if h is not None:
         return h(I, a)
-    raise OutOfSubset("IsImplementation")
+    obj, iface = a[0], a[1]
+    from .extract import ClassInfo as _CI
+
+    if not (isinstance(iface, SClass) and isinstance(iface.ci, _CI)):
+        raise OutOfSubset("IsImplementation against %r" % (iface,))
+    if not (isinstance(obj, SRef) and isinstance(obj.o, HObj) and isinstance(obj.o.cls, _CI)):
+        if isinstance(obj, (SNum, SBool, SStr, STuple)) or obj is SNone or (isinstance(obj, SRef) and not isinstance(obj.o, HObj)):
+            return SBool(False)
+        raise OutOfSubset("IsImplementation of %r" % (obj,))
+    want = iface.ci.name
+    for c in obj.o.cls.mro():
+        if not isinstance(c, _CI):
+            continue
+        if c is iface.ci:
+            return SBool(True)
+        for d in c.node.decorator_list:
+            if isinstance(d, _ast.Call) and getattr(d.func, "id", getattr(d.func, "attr", "")) == "ImplementsInterface":
+                for x in d.args:
+                    if getattr(x, "id", getattr(x, "attr", None)) == want:
+                        return SBool(True)
+    return SBool(False)
 
 
 def assert_implements(I, a, k):
